@@ -432,6 +432,20 @@ impl Check for RwCheck {
                 let pos = w.below(run.ops.len() + 1);
                 run.ops.insert(pos, Op::new("union").t(a).t(b).i(w.below(2) as i64));
             }
+            if w.chance(1, 5) {
+                // self-reference that collapses by congruence: X = f(X, B), then B = C while
+                // f(X, C) already exists
+                let x = random_la(&mut w, &[0, 1], 1, &mut binder);
+                let b = random_la(&mut w, &[0, 1], 1, &mut binder);
+                let c = random_la(&mut w, &[0, 1], 2, &mut binder);
+                let name = if w.chance(1, 2) { "add" } else { "mul" };
+                let f = |l: &Tm, r: &Tm| Tm::node(name, vec![], vec![(vec![], l.clone()), (vec![], r.clone())]);
+                let pos = w.below(run.ops.len() + 1);
+                let (u1, u2) = if w.chance(1, 2) { (b.clone(), c.clone()) } else { (c.clone(), b.clone()) };
+                run.ops.insert(pos, Op::new("union").t(u1).t(u2).i(w.below(2) as i64));
+                run.ops.insert(pos, Op::new("union").t(x.clone()).t(f(&x, &b)).i(w.below(2) as i64));
+                run.ops.insert(pos, Op::new("add").t(f(&x, &c)));
+            }
             run.set("modify", 0);
             if w.chance(1, 2) {
                 // with modify only for runs without raw unions (a wrong equation may join constants)
